@@ -184,7 +184,8 @@ class Gen:
                 ('aggr', p['w_aggr']), ('if', p['w_if']),
                 ('iferror', p['w_iferror']), ('iserror', p['w_iserror']),
                 ('name', p['w_name']), ('ifs', p['w_ifs']),
-                ('ifna', p['w_ifna']),
+                ('ifna', p['w_ifna']), ('concat', p.get('w_concat', 0)),
+                ('istype', p.get('w_istype', 0)),
             ])
         d = depth - 1
         if kind == 'ref':
@@ -215,6 +216,12 @@ class Gen:
                     self.scalar(i, host, d)]
         if kind == 'iserror':
             return ['f', 'ISERROR', self.scalar(i, host, d)]
+        if kind == 'concat':     # type-sensitive: display form of the operand
+            return ['op', '&', ['op', '&', self.scalar_ref(i, host),
+                                ['s', '-']], self.scalar(i, host, d)]
+        if kind == 'istype':
+            return ['f', rng.pick(['ISLOGICAL', 'ISNUMBER', 'ISTEXT']),
+                    self.scalar_ref(i, host)]
         raise ValueError(kind)
 
     def guard(self, i, host, depth):
@@ -404,7 +411,8 @@ def cell_key(world, placement, i):
 
 
 def xlsx_books(world, placement, sheet_orders=None, styled=True,
-               skip_sheets=(), skip_names=(), extlinks=False):
+               skip_sheets=(), skip_names=(), extlinks=False,
+               broken_names=()):
     """{file name: xlsx bytes}, written by openpyxl in memory.
 
     skip_sheets: [(b, s)] sheets left out of their book (fault worlds);
@@ -490,7 +498,15 @@ def xlsx_books(world, placement, sheet_orders=None, styled=True,
             else:
                 ws[a1] = c['v']
         for k, n in enumerate(world['names']):
-            if n['b'] != b or k in skip_names:
+            if n['b'] != b:
+                continue
+            if k in broken_names:
+                # what Excel leaves behind when the target of a name is
+                # deleted: the name exists, its definition is #REF!
+                nm = placement['names'][k]
+                wb.defined_names[nm] = DefinedName(nm, attr_text='#REF!')
+                continue
+            if k in skip_names:
                 continue
             _, tb, ts, r1, c1, r2, c2 = n['t']
             name = P.sheet(tb, ts)['name'].replace("'", "''")
@@ -611,4 +627,54 @@ def add_satellite_block(rng, world):
         world['cells'].append({'at': list(p), 'f': f})
         rh, rw = max(rh, p[2] + 1), max(rw, p[3] + 1)
     world['books'][0][0] = [rh, rw]
+    return True
+
+
+def add_named_block(rng, world):
+    """Three constants in a row (or column), a defined name over them, a
+    chained name, one formula reading a single member and one aggregating the
+    name: overrides through the name must reach the member cells."""
+    if len(world['names']) + 2 > len(NAMES):
+        return False
+    idx = Index(world)
+    b = rng.randrange(len(world['books']))
+    s = rng.randrange(len(world['books'][b]))
+    h, w = world['books'][b][s]
+    covered = set(idx.occ)
+    for c in world['cells']:
+        if 'f' in c:
+            for x in refs_of(c['f']):
+                r = x if x[0] == 'r' else world['names'][x[1]]['t']
+                covered.update(rect_cells(r))
+    for n in world['names']:
+        covered.update(rect_cells(n['t']))
+    r0 = max([p[2] for p in covered if p[:2] == (b, s)] + [h - 1]) + 1
+    horiz = rng.chance(.5)
+    pos = [(r0, c) for c in range(3)] if horiz else \
+        [(r0 + r, 0) for r in range(3)]
+    n0 = len(world['cells'])
+    for p in pos:
+        world['cells'].append({'at': [b, s, p[0], p[1]],
+                               'v': rng.randrange(1, 9)})
+    t = ['r', b, s, pos[0][0], pos[0][1], pos[2][0], pos[2][1]]
+    world['names'].append({'b': b, 't': t, 'avail': n0 + 3})
+    k = len(world['names']) - 1
+    world['names'].append({'b': b, 't': list(t), 'avail': n0 + 3, 'alias': k})
+    extra = [(r0 + 3, 0), (r0 + 3, 1), (r0 + 3, 2)]
+    m = pos[rng.randrange(3)]
+    world['cells'].append({'at': [b, s, extra[0][0], extra[0][1]], 'f': [
+        'op', '*', ['r', b, s, m[0], m[1], m[0], m[1]], ['n', 10]]})
+    world['cells'].append({'at': [b, s, extra[1][0], extra[1][1]], 'f': [
+        'f', 'SUM', ['nm', rng.pick([k, k + 1])]]})
+    world['cells'].append({'at': [b, s, extra[2][0], extra[2][1]], 'f': [
+        'op', '+', ['r', b, s, pos[0][0], pos[0][1], pos[0][0], pos[0][1]],
+        ['r', b, s, pos[2][0], pos[2][1], pos[2][0], pos[2][1]]]})
+    # consumers that are sensitive to the TYPE of the member cell's value
+    m2 = pos[rng.randrange(3)]
+    world['cells'].append({'at': [b, s, r0 + 4, 0], 'f': [
+        'op', '&', ['r', b, s, m2[0], m2[1], m2[0], m2[1]], ['s', '-']]})
+    world['cells'].append({'at': [b, s, r0 + 4, 1], 'f': [
+        'f', rng.pick(['ISLOGICAL', 'ISNUMBER']),
+        ['r', b, s, m2[0], m2[1], m2[0], m2[1]]]})
+    world['books'][b][s] = [max(h, r0 + 5), max(w, 3)]
     return True
